@@ -805,7 +805,7 @@ fn boundary_targets() -> Vec<String> {
     v
 }
 
-const GARBAGE: &[u8] = b"abcxyzABCXYZ0189-._~!$&'()*+,;=:@%/|\\[]^";
+const GARBAGE: &[u8] = b"abcxyzABCXYZ0189-._~!$&'()*+,;=:@%/|\\[]^<>\"`";
 
 fn random_target(rng: &mut Rng) -> String {
     if rng.chance(1, 4) {
@@ -843,6 +843,8 @@ fn random_target(rng: &mut Rng) -> String {
     let pre = *rng.pick(&[
         "/", "/", "/", "/", "/", "//", "/./", "/../", "/x/", "/x/../", "/%2f", "/%2e%2e/", "/?", "/#", "/?p=/", "/;", "", "http://h.example/",
         "http://h.example", "http://h.example?", "http://h.example//", "/profile.json/", "/symbolicate/v5/", "/\\", "/*",
+        "https://h.example/", "HTTP://h.example/", "hTTps://h/", "ftp://h/", "x+y.z-w~://u:p@h:80/", "http://[::1]:8080/", "http://u@h/", "://h/", "http:///",
+        "http://h:1:2/", "http://h%41/", "http://u%41@h/", "h:80/", "//h/", "http://h@/", "http:/", "/\u{e9}/", "http://h\u{e9}/",
     ]);
     let suf = match rng.below(8) {
         0..=4 => rng.pick(&API_SUFFIXES).to_string(),
@@ -891,24 +893,69 @@ fn random_target(rng: &mut Rng) -> String {
     sanitize(t)
 }
 
-/// Keep the request-target inside the forms whose reading by the `http` crate the model describes
-/// (origin-form, `*`, `http://authority[/path]`, bare authority, `authority/…` = rejected): the
-/// authority part must be plain `[A-Za-z0-9.-]+`, otherwise the target is turned into origin-form.
+/// The model follows `http::Uri::from_shared` for every request-target, so nothing is filtered any more;
+/// only an empty target (not expressible in an op line) is replaced.
 fn sanitize(t: String) -> String {
-    if t.starts_with('/') || t == "*" {
-        return t;
-    }
-    let probe = expand("t0ken", &t);
-    let rest = probe.strip_prefix("http://").unwrap_or(&probe);
-    let auth: &str = rest.split(|c| c == '/' || c == '?' || c == '#').next().unwrap_or("");
-    let plain = !auth.is_empty() && auth.bytes().all(|b| b.is_ascii_alphanumeric() || b == b'.' || b == b'-');
-    // a bare authority followed by `?`/`#` is not one of the described forms either
-    let bare_ok = probe.starts_with("http://") || !rest[auth.len()..].starts_with(|c| c == '?' || c == '#');
-    if plain && bare_ok && !t.contains('%') {
-        t
+    if t.is_empty() {
+        "/".to_string()
     } else {
-        format!("/{t}")
+        t
     }
+}
+
+// ---------------------------------------------------------------------------------------------
+// `uri` ops: byte strings for the in-process comparison of `pathOfTarget` with `http::Uri`
+
+const URI_SCHEMES: [&[u8]; 16] = [b"http", b"https", b"HTTP", b"hTtPs", b"Http", b"ftp", b"a+b.c-d~", b"x", b"", b"1", b"ht tp", b"h\xc3\xa9", b"%", b"htt", b"httpss", b"h_"];
+const URI_SEPS: [&[u8]; 8] = [b"://", b"://", b"://", b":/", b":", b"//", b":///", b""];
+const URI_AUTHS: [&[u8]; 30] = [
+    b"h", b"h.example", b"h:80", b"u:p@h:80", b"u%41:p@h", b"h%41", b"[::1]", b"[::1]:80", b"[::1", b"::1]", b"[[::1]]", b"a:b:c",
+    b"[1:2:3:4:5:6:7:8]:80", b"1:2:3:4:5:6:7:8:9", b"[1:2:3:4:5:6:7:8:9]", b"u@", b"@h", b"u@h@i", b"", b"h\xc3\xa9", b"h<", b"h\\", b"h^", b"h_", b"h~!$&'()*+,;=",
+    b"[%41]", b"%41@[::1]", b"[::1]%41", b"u:p:q@h", b"0123456789abcdfghijklmnpqrsvwxyz0123456",
+];
+const URI_PATHS: [&[u8]; 14] = [b"", b"/", b"/tok/profile.json", b"//", b"/a b", b"/%2f", b"/\"{}", b"/<", b"/`", b"/|~^[]\\", b"/\xc3\xa9", b"/\xff", b"/\x7f", b"/*"];
+const URI_QUERIES: [&[u8]; 10] = [b"", b"", b"?", b"?x=1", b"?\"", b"?<", b"?{}`|", b"??", b"?\xc3\xa9", b"? "];
+const URI_FRAGS: [&[u8]; 6] = [b"", b"", b"#", b"#f", b"#\xff\xfe", b"# sp?/"];
+
+fn random_uri_bytes(rng: &mut Rng) -> Vec<u8> {
+    let mut v: Vec<u8> = Vec::new();
+    match rng.below(10) {
+        0 | 1 => {
+            // short strings over the characters the parser distinguishes
+            let alpha: [&[u8]; 14] = [b":", b"/", b"?", b"#", b"@", b"[", b"]", b"%", b"a", b"*", b"\xc3\xa9", b" ", b"h", b"."];
+            for _ in 0..rng.range(0, 12) {
+                v.extend_from_slice(*rng.pick(&alpha[..]));
+            }
+        }
+        2 => {
+            // origin-form with arbitrary bytes
+            v.push(b'/');
+            for _ in 0..rng.range(0, 16) {
+                v.push(if rng.chance(1, 6) { rng.below(256) as u8 } else { *rng.pick(GARBAGE) });
+            }
+        }
+        _ => {
+            if rng.chance(5, 6) {
+                v.extend_from_slice(*rng.pick(&URI_SCHEMES[..]));
+                v.extend_from_slice(*rng.pick(&URI_SEPS[..]));
+            }
+            v.extend_from_slice(*rng.pick(&URI_AUTHS[..]));
+            v.extend_from_slice(*rng.pick(&URI_PATHS[..]));
+            v.extend_from_slice(*rng.pick(&URI_QUERIES[..]));
+            v.extend_from_slice(*rng.pick(&URI_FRAGS[..]));
+        }
+    }
+    if !v.is_empty() && rng.chance(1, 5) {
+        let i = rng.below(v.len() as u64) as usize;
+        match rng.below(3) {
+            0 => v[i] = rng.below(256) as u8,
+            1 => {
+                v.remove(i);
+            }
+            _ => v.insert(i, *rng.pick(&b":/?#@[]%. a"[..])),
+        }
+    }
+    v
 }
 
 impl Prop for C18 {
@@ -1125,9 +1172,82 @@ impl Prop for C18 {
         for (i, chunk) in enc.chunks(20).enumerate() {
             v.push(Case { name: format!("enc{i}"), ops: chunk.to_vec() });
         }
+        // `http::Uri` in-process: every string of up to 3 pieces over the characters the parser
+        // distinguishes; every byte value in scheme, authority, path, query and fragment position;
+        // scheme lengths around MAX_SCHEME_LEN; colon counts around MAX_COLONS; the request-target forms
+        let mut uri: Vec<Vec<u8>> = Vec::new();
+        let alpha: [&[u8]; 13] = [b":", b"/", b"?", b"#", b"@", b"[", b"]", b"%", b"a", b"*", b"\xc3\xa9", b" ", b"."];
+        uri.push(Vec::new());
+        for a in alpha {
+            uri.push(a.to_vec());
+            for b in alpha {
+                uri.push([a, b].concat());
+                for c in alpha {
+                    uri.push([a, b, c].concat());
+                    if tier == Tier::Thorough {
+                        for d in alpha {
+                            uri.push([a, b, c, d].concat());
+                        }
+                    }
+                }
+            }
+        }
+        for b in 0..=255u8 {
+            uri.push(vec![b]);
+            uri.push([&b"/x"[..], &[b], &b"y"[..]].concat());
+            uri.push([&b"/p?x"[..], &[b], &b"y"[..]].concat());
+            uri.push([&b"/p#x"[..], &[b]].concat());
+            uri.push([&b"http://h"[..], &[b], &b"i/p"[..]].concat());
+            uri.push([&b"a"[..], &[b], &b"b://h/p"[..]].concat());
+            uri.push([&b"h"[..], &[b], &b"i"[..]].concat());
+            uri.push([&b"http://u"[..], &[b], &b"@h/p"[..]].concat());
+        }
+        for n in [0usize, 1, 2, 3, 4, 63, 64, 65, 66, 200] {
+            uri.push([&vec![b'a'; n][..], &b"://h/p"[..]].concat());
+            uri.push([&vec![b'a'; n][..], &b":"[..]].concat());
+            uri.push([&vec![b'a'; n][..], &b":/"[..]].concat());
+            uri.push([&vec![b'a'; n][..], &b"://"[..]].concat());
+        }
+        for n in 0..12usize {
+            uri.push([&b"http://"[..], &vec![b':'; n][..], &b"/p"[..]].concat());
+            uri.push([&b"http://["[..], &vec![b':'; n][..], &b"]:80/p"[..]].concat());
+            uri.push([&b"http://u"[..], &vec![b':'; n][..], &b"@h:1/p"[..]].concat());
+            uri.push([&b"h"[..], &vec![b':'; n][..], &b"1"[..]].concat());
+        }
+        for sc in URI_SCHEMES {
+            for sep in [&b"://"[..], &b":/"[..], &b":"[..]] {
+                for au in URI_AUTHS {
+                    for pa in [&b""[..], &b"/tok/profile.json"[..], &b"?q"[..], &b"#f"[..]] {
+                        if tier == Tier::Quick && (sc.len() + au.len() + pa.len()) % 3 != 0 {
+                            continue;
+                        }
+                        uri.push([sc, sep, au, pa].concat());
+                    }
+                }
+            }
+        }
+        for au in URI_AUTHS {
+            for pa in URI_PATHS {
+                for q in URI_QUERIES {
+                    if tier == Tier::Quick && (au.len() + pa.len() + q.len()) % 4 != 0 {
+                        continue;
+                    }
+                    uri.push([&b"http://"[..], au, pa, q].concat());
+                    uri.push([au, pa, q].concat());
+                }
+            }
+        }
+        for (i, chunk) in uri.chunks(60).enumerate() {
+            v.push(Case { name: format!("uri{i}"), ops: chunk.iter().map(|b| format!("uri {}", hex(b))).collect() });
+        }
         v
     }
     fn generate(&self, rng: &mut Rng, _tier: Tier, _index: u64) -> Vec<String> {
+        if rng.chance(1, 8) {
+            // the request-target parser, in-process
+            let n = rng.range(1, 10);
+            return (0..n).map(|_| format!("uri {}", hex(&random_uri_bytes(rng)))).collect();
+        }
         if rng.chance(1, 12) {
             // encoder: mostly the 24 bytes the server draws, sometimes other lengths
             let n = rng.range(1, 8);
@@ -1398,6 +1518,20 @@ impl Prop for C18 {
                     let line = anchor_generate_token();
                     stats.bump("source_anchor_generate_token");
                     out.push(Some(line));
+                }
+                Some("uri") => {
+                    // the parser hyper applies to the request-target (hyper 1.6 role.rs:209-212), in-process
+                    let bytes = unhex(w.get(1).copied().unwrap_or("-"));
+                    match http::Uri::try_from(&bytes[..]) {
+                        Ok(u) => {
+                            stats.bump(if u.scheme().is_some() { "uri_absolute_form" } else if u.authority().is_some() { "uri_authority_form" } else { "uri_origin_or_asterisk_form" });
+                            out.push(Some(format!("path {}", hex(u.path().as_bytes()))));
+                        }
+                        Err(_) => {
+                            stats.bump("uri_rejected");
+                            out.push(Some("err".to_string()));
+                        }
+                    }
                 }
                 Some("enc") => {
                     let bytes = unhex(w.get(1).copied().unwrap_or("-"));
